@@ -52,6 +52,7 @@ Definition smap_eqb (a b : alist cval) : bool := list_eqb (pair_eqb Z.eqb cval_e
 Definition obs_eqb (a b : cobs) : bool :=
   match a, b with
   | BUnit, BUnit | BIgnored, BIgnored | BFwdNone, BFwdNone | BOk, BOk | BErr, BErr => true
+  | BAcks x, BAcks y => list_eqb Bool.eqb x y
   | BBroken, _ | _, BBroken => false
   | BVal x, BVal y => option_eqb cval_eqb x y
   | BMap x, BMap y => smap_eqb x y
